@@ -9,15 +9,20 @@ Import ListNotations.
 Definition tgt_paths (t : target) : list (prefix * path) :=
   match t with TExt pfx p => [(pfx, p)] | _ => [] end.
 
-Fixpoint queries (e : expr) : list (prefix * path) :=
-  let ql := fix ql (l : list expr) : list (prefix * path) :=
+(* a reported query; the tag records whether the query is the argument of `del` (the only reported
+   reads through which the target is modified), and then its `compact` flag *)
+Definition qent := (option bool * (prefix * path))%type.
+
+Fixpoint queries (e : expr) : list qent :=
+  let ql := fix ql (l : list expr) : list qent :=
               match l with [] => [] | x :: r => queries x ++ ql r end in
   match e with
-  | EQExt pfx p | EExistsExt pfx p | EDelExt pfx p _ => [(pfx, p)]
+  | EQExt pfx p | EExistsExt pfx p => [(None, (pfx, p))]
+  | EDelExt pfx p c => [(Some c, (pfx, p))]
   | EQExpr e1 _ | EGroup e1 | ENot e1 | EAssign _ e1 | EAssignInf _ _ e1 _ | EReturn e1 => queries e1
   | EArr es | EBlock es | ECall _ es => ql es
   | EObj kvs =>
-      (fix go (l : list (bytes * expr)) : list (prefix * path) :=
+      (fix go (l : list (bytes * expr)) : list qent :=
          match l with [] => [] | kv :: r => queries (snd kv) ++ go r end) kvs
   | EIf c t f => ql c ++ ql t ++ match f with Some fb => ql fb | None => [] end
   | EOp _ a b => queries a ++ queries b
@@ -45,13 +50,16 @@ Fixpoint assigns (e : expr) : list (prefix * path) :=
   | EExistsExt _ _ | EExistsVar _ _ => []
   end.
 
-Definition queries_l (es : list expr) : list (prefix * path) := flat_map queries es.
+Definition queries_l (es : list expr) : list qent := flat_map queries es.
+(* ProgramInfo::target_queries *)
+Definition query_paths (es : list expr) : list (prefix * path) := map snd (queries_l es).
 Definition assigns_l (es : list expr) : list (prefix * path) := flat_map assigns es.
 
 (* a Target operation is accounted for by the report *)
-Definition logged_ok (Q A : list (prefix * path)) (t : top) : Prop :=
+Definition logged_ok (Q : list qent) (A : list (prefix * path)) (t : top) : Prop :=
   match t with
-  | TGet pfx p | TRem pfx p _ => In (pfx, p) Q
+  | TGet pfx p => In (pfx, p) (map snd Q)
+  | TRem pfx p c => In (Some c, (pfx, p)) Q
   | TIns pfx p => In (pfx, p) A
   end.
 
